@@ -93,6 +93,8 @@ def fragment_form(rng, big=False):
         t = r.get("type", "")
         if t.startswith("rank "):
             r["type"] = rng.choice(["select_one ", "select_multiple "]) + t.split(" ", 1)[1]
+        if r.get("type", "").startswith(("select_one ", "select_multiple ")) and rng.random() < 0.2:
+            r["type"] += rng.choice([" or_other", " or other", " or specify other"])
     # reference targets: every named element (questions at any depth, inside repeats, and a few sections)
     tops = [r["name"] for r, d, _ in _walk_rows(form)
             if "name" in r and (not r.get("type", "").startswith(("begin", "end")) or rng.random() < 0.15)]
@@ -123,6 +125,8 @@ def fragment_form(rng, big=False):
             if rng.random() < 0.1 and tops:
                 r["label"] = "Sec ${%s}" % rng.choice(tops)
             r.pop("repeat_count", None)
+            if kind == "repeat" and rng.random() < 0.3:
+                r["repeat_count"] = rng.choice(["3", "2 + 1", expr(nm), "${%s}" % rng.choice(tops)] if tops else ["3"])
             continue
         if base == "calculate":
             r["calculation"] = expr(nm)
@@ -145,7 +149,9 @@ def fragment_form(rng, big=False):
             r["calculation"] = expr(nm)
         if rng.random() < 0.2:
             r["appearance"] = rng.choice(APPEARANCES["sel" if base.startswith("select") else "q"])
-        if rng.random() < 0.2:
+        if rng.random() < 0.12 and base in ("text", "integer", "decimal", "date", "select_one", "select_multiple"):
+            r["default"] = rng.choice(["now()", "today()", "1 + 2", "uuid()", expr(nm), "concat('a', 'b')", "-1 + 2", "random()"])
+        elif rng.random() < 0.2:
             if base in STATIC_DEFAULTS:
                 r["default"] = rng.choice(STATIC_DEFAULTS[base])
             elif base.startswith("select"):
@@ -262,6 +268,9 @@ def e2e_case(ctx, form, record=True) -> None:
                 ctx.count("e2e:byte-exact")
                 if '="../' in r0["xform"] or " ../" in r0["xform"]:
                     ctx.count("e2e:byte-exact with relative paths")
+                for key, pat in (("setvalue", "<setvalue "), ("jr:count", "jr:count="), ("or_other", "_other")):
+                    if pat in r0["xform"]:
+                        ctx.count("e2e:byte-exact with " + key)
                 if "<output " in r0["xform"]:
                     ctx.count("e2e:byte-exact with <output> in labels")
                     if '<output value=" ../' in r0["xform"]:
